@@ -6,7 +6,7 @@ construction of `wordBits`.  Core only.
 import NetaddrVerif.Lemmas.C15LBytes
 import NetaddrVerif.Lemmas.C15LPyInt
 namespace NV.Codec
-open NV.Py
+open NV.Py NV.PyL
 
 /-- the n-digit zero-padded binary spelling of v (mod 2^n), most significant digit first -/
 def padBits (n v : Nat) : List Char := (byteBitsLE n v).reverse
@@ -174,7 +174,7 @@ theorem toDigits2_spec (v : Nat) : ∀ acc,
 end NV.Codec
 
 namespace NV.Codec
-open NV.Py
+open NV.Py NV.PyL
 
 /-! ### the byte-chunk construction of `wordBits` -/
 
@@ -269,7 +269,7 @@ theorem wordBits_spec (ws word : Nat) (hw : word < 2 ^ ws) : wordBits ws word = 
 end NV.Codec
 
 namespace NV.Codec
-open NV.Py
+open NV.Py NV.PyL
 
 /-! ### regrouping words into one numeral; removing separators -/
 
